@@ -12,7 +12,7 @@ ASSUMPTIONS = ["--retries/NEXTEST_RETRIES (executor `force_retries`) is modelled
                "tool configs do not reference test groups (they would have to define their own @tool groups)"]
 
 
-def run(seed, tier, replay=None):
+def run_p(seed, tier, replay=None):
     n = 500 if tier == "quick" else 40000
     r = common.run_streams([("p_settings", [seed, n, vlib.BUILD + "/settings-tmp"])])
     items = [([b, args, idx], req, impl) for (b, args, idx, req, impl) in r.cases]
@@ -34,5 +34,13 @@ def run(seed, tier, replay=None):
         "samples": samples, "traces": len(items), "dist": r.dist,
         "violations": violations, "broken": r.broken, "impl_failures": r.impl_failures,
     }
+
+def run(seed, tier, replay=None):
+    # "the command-line or environment value where one exists (e.g. --retries)": the wiring of the forced value through the runner
+    # is end-to-end only — the attempts the scripted processes record against the policy in force (family mix, incl. --retries 0
+    # against a profile and an override that ask for retries)
+    from props import mix
+    attempts = lambda sc, r: [v for v in mix.mon_retries(sc, r) if v["kind"] == "attempt-count"]
+    return mix.merge(run_p(seed, tier, replay), mix.check([attempts], seed, tier, 13, 40))
 
 KNOWN_MATCHERS = {}
